@@ -8,7 +8,7 @@
    The unsynchronised diagnostics counters are outside the property; the model contains them and
    [counter_lost_update_refuted] shows that they are NOT schedule-independent. *)
 From Coq Require Import ZArith List Bool Permutation.
-From Catii Require Import Base.Cases Conc.Interleave Conc.Pool Conc.Interrupt Conc.ConcProofs.
+From Catii Require Import Base.Cases Conc.Interleave Conc.Pool Conc.Interrupt Conc.ConcProofs Conc.Check Conc.CheckSound.
 Import ListNotations.
 
 (* every schedule (= every merge of the tasks' write lists that keeps each task's order) leaves
@@ -62,6 +62,23 @@ Theorem schedules_exist : forall (A : Type) (ts : list (list A)),
   interleave ts (concat ts) /\ forall sched, interleave ts (merge_by sched ts).
 Proof. exact ConcProofs.schedules_exist. Qed.
 Print Assumptions schedules_exist.
+
+(* the tie: the executable checkers that harness/props/c16.py evaluates on the observed tasks establish
+   the hypotheses above ... *)
+Theorem footprints_checker_sound : forall shape coords (tasks : list (list (write Z))),
+  footprints_ok_b shape coords tasks = true ->
+  Forall2 (@prefixed Z) coords tasks /\ NoDup coords /\ (forall p, In p coords -> length p = length shape).
+Proof. exact c16_footprints_sound. Qed.
+Print Assumptions footprints_checker_sound.
+
+(* ... so that on a passing correspondence case EVERY interleaving of the observed tasks' writes (not
+   only the schedules that were run), started on the observed fresh regions, leaves every cell of the
+   regions as the observed serial run left it *)
+Theorem passing_case_all_schedules : forall c : c16case, c16_check c = true ->
+  forall tr, interleave (c16_tasks c) tr ->
+  snapshot (c16_cells c) (run tr (c16_init c)) = c16_serial_final c.
+Proof. exact c16_check_sound. Qed.
+Print Assumptions passing_case_all_schedules.
 
 (* what is false, with witnesses *)
 Theorem overlapping_tasks_refuted :
